@@ -397,6 +397,20 @@ where
             let edge: &mut Edge<_, _>;
 
             if self.free_edge != EdgeIndex::end() {
+                // Check the endpoints before taking the vacant edge off the free list,
+                // so that a failed call leaves the graph unchanged.
+                let missing = if cmp::max(a.index(), b.index()) >= self.g.nodes.len() {
+                    Some(cmp::max(a.index(), b.index()))
+                } else if self.g.nodes[a.index()].weight.is_none() {
+                    Some(a.index())
+                } else if self.g.nodes[b.index()].weight.is_none() {
+                    Some(b.index())
+                } else {
+                    None
+                };
+                if let Some(i) = missing {
+                    return Err(GraphError::NodeMissed(i));
+                }
                 edge_idx = self.free_edge;
                 edge = &mut self.g.edges[edge_idx.index()];
                 let _old = replace(&mut edge.weight, Some(weight));
